@@ -40,6 +40,8 @@ def make_engine(prop: str, steer: List[str]):
         from .engine_b import EngineB
 
         return EngineB(prop, steer)
+    if prop == "C19":
+        return Engine19(steer)
     raise KeyError(prop)
 
 
@@ -67,6 +69,38 @@ ENGINES = [
     {"name": "tensor-history", "path": "sim/engine_a.py", "serves_properties": ["C04", "C19"], "kind_free_text": "seeded read/write histories on a dense+sparse pair vs. a reference model; malformed requests as faults"},
     {"name": "solver-world/cp_apr", "path": "sim/engine_c11.py", "serves_properties": ["C11"], "kind_free_text": "CP-APR under a simulated clock; deadline fired at every iteration boundary"},
 ]
+
+class Engine19:
+    """C19 = malformed-request injection into the histories of engine A (indexing) and engine B (everything else)."""
+
+    name = "tensor-history + object-heap (malformed requests)"
+
+    def __init__(self, steer):
+        from .engine_a import EngineA
+        from .engine_b import EngineB
+
+        from .driver import known_triggers
+
+        self.a = EngineA("C19", sorted(set(steer) | set(known_triggers("C04"))))
+        self.b = EngineB("C19", steer)
+
+    def run(self, run_seed, tier):
+        from .kernel import H
+
+        which = "A" if H(run_seed, "which") % 10 < 3 else "B"
+        res = (self.a if which == "A" else self.b).run(run_seed, tier)
+        res.init = dict(res.init, engine=which)
+        return res
+
+    def replay(self, rec):
+        eng = self.a if rec["init"].get("engine") == "A" else self.b
+        res = eng.replay(rec)
+        return res
+
+    def simplify(self, rec):
+        if rec["init"].get("engine") == "A":
+            yield from self.a.simplify(rec)
+
 
 CHECKS = {
     "C04": {
@@ -241,5 +275,26 @@ CHECKS = {
         "state_measure": "hash of (operation, multiset of kinds on the heap, number of alias groups)",
         "components": {"real": REAL_ALL, "simulated": ["np.random seeded per call", "clock / stdout / ARPACK seams as in the solver world (algorithms run inside it)", "perturbation injector"]},
         "assumptions": ["user functions passed to tenfun/elemfun return fresh arrays"],
+    },
+    "C19": {
+        "manifest": {
+            "engine": "object-heap",
+            "design_ref": "DESIGN.md section 3, engines A and B (C19 facet), Appendix A",
+            "level_text": "Fault kind 'malformed request' injected into the histories of engine A (indexing on a dense+sparse pair: value count != subscript count, too few subscript columns, linear write beyond the extent, region right-hand side of the wrong shape, negative entries in a sparse subscript array) and engine B (~60 recipes across all classes, module functions and algorithm entry points: shape mismatches between heap operands of different shapes, wrong-length vectors, wrong-size matrices, factor lists of the wrong length / column / row count, mode arguments out of range / negative / repeated / dims together with exclude_dims, non-permutations, element-count-changing reshapes, inconsistent constructor components, bad algorithm options). Oracle: the call raises AND every live object on the heap is bit-identical to its snapshot afterwards; the history then continues, so a partial mutation that is invisible at once is caught by later steps. Each recipe re-establishes from the actual operands that the request really violates the precondition.",
+            "level_note": "Only violations that C19's statement names are injected. Trusted: the recipes' malformedness predicates (sim/catalog_b_bad.py), the snapshot model. The plain sptensor constructor documents 'no validation' apart from subscripts fitting the shape, so only that is a recipe.",
+            "technique": "deterministic simulation: malformed-request fault injection into seeded object histories; oracle = rejected and all live state unchanged",
+        },
+        "level": "exploration",
+        "quick": {"runs": 4000, "wall": 240},
+        "thorough": {"runs": 150000, "wall": 1500},
+        "chunk": 20,
+        "rule": (
+            "one case = one history of engine A (30%) or engine B (70%) in which 40-60% (B) / 15-30% (A) of the steps are malformed requests "
+            "drawn from the recipe catalogue and applied to whatever shapes the heap holds at that moment; non-trivial = at least 2 malformed "
+            "requests judged; distinct = distinct digest of (steps, observations)."
+        ),
+        "state_measure": "hash of (recipe, kinds and shapes of the operands)",
+        "components": {"real": REAL_ALL, "simulated": ["malformed-request injector", "np.random / clock / stdout seams as in the solver world"]},
+        "assumptions": ["malformedness predicates of the recipes"],
     },
 }
